@@ -14,6 +14,7 @@ import (
 	"metacontroller/pkg/apis/metacontroller/v1alpha1"
 	commonv2 "metacontroller/pkg/controller/common/api/v2"
 	"metacontroller/pkg/zzverif/env"
+	"metacontroller/pkg/zzverif/gen"
 	rt "metacontroller/pkg/zzverif/rt"
 )
 
@@ -224,6 +225,24 @@ func VerifC06_UpdateStrategy() {
 					rt.Assert(string(r.Body.GetUID()) == uid, "inplace/body-uid")
 					rt.Assert(r.Body.GetResourceVersion() == "7", "inplace/body-resourceVersion")
 					rt.Assert(r.Accepted, "inplace/rejected-by-server")
+					// the update records what was applied NOW (the next three-way merge
+					// starts from it): the last-applied record equals the desired child
+					rec := map[string]interface{}{}
+					ann := r.Body.GetAnnotations()["metacontroller.k8s.io/last-applied-configuration"]
+					rt.Assert(ann != "", "inplace/last-applied-record-missing")
+					if ann != "" && k8sjson.Unmarshal([]byte(ann), &rec) == nil {
+						// (the desired child as the hook returned it, minus metacontroller's
+						// own annotation, which a hook that echoes annotations sends back)
+						want := desiredList[0].DeepCopy()
+						wa := want.GetAnnotations()
+						delete(wa, "metacontroller.k8s.io/last-applied-configuration")
+						if len(wa) == 0 {
+							unstructured.RemoveNestedField(want.Object, "metadata", "annotations")
+						} else {
+							want.SetAnnotations(wa)
+						}
+						gen.Equal(rec, want.Object, "inplace/last-applied-record-is-not-the-desired-state-just-applied")
+					}
 				}
 			}
 		default:
